@@ -67,6 +67,7 @@ type BundleCfg struct {
 	NoCollisionsInFull    bool // full mode: colliding auxiliary definitions are renamed apart
 	NoKeepNames           bool
 	KeepNamesPlainOnly    bool // KeepNames only together with the plain name layer
+	NoPunctOnlyLocalNames bool // punctuation-only names only as names of auxiliary definitions
 	NoOAIGenNamedAliases  bool // a root definition whose name contains "OAIGen" is never a bare alias of a remote definition
 	NoSharedSchemaPtrs    bool
 	NoAnonPtrsIntoAliases bool
@@ -286,8 +287,21 @@ func (g *bgen) defSchema(doc string, self target, allowRef bool) O {
 	return g.refTo(doc, earlier[g.Int(0, len(earlier)-1)])
 }
 
+func (g *bgen) dropPunct(ns []string) []string {
+	if !g.cfg.NoPunctOnlyLocalNames {
+		return ns
+	}
+	var out []string
+	for _, n := range ns {
+		if CollisionBase(n, true) != "" {
+			out = append(out, n)
+		}
+	}
+	return out
+}
+
 func (g *bgen) propNames() []string {
-	ns := g.names(1, 3)
+	ns := g.dropPunct(g.names(1, 3))
 	if g.cfg.NoKeywordPropsInFull && !g.opts.Minimal && !g.opts.Expand {
 		var out []string
 		for _, n := range ns {
@@ -397,7 +411,11 @@ func (g *bgen) schema(doc string, depth int, allowRef bool) O {
 			s["patternProperties"] = O{"^x-": g.schema(doc, depth+1, allowRef)}
 		case 4:
 			s["type"] = "object"
-			s["definitions"] = O{g.Pick(g.pool): g.schema(doc, depth+1, allowRef)}
+			nm := g.Pick(g.pool)
+			if len(g.dropPunct([]string{nm})) == 0 {
+				nm = "nested"
+			}
+			s["definitions"] = O{nm: g.schema(doc, depth+1, allowRef)}
 		}
 		return s
 	}
@@ -425,7 +443,7 @@ func GenFlattenCase(d *D, cfg BundleCfg) *FlattenCase {
 	g.layer = g.Int(0, cfg.MaxLayer)
 	g.pool = NamePool(g.layer, cfg.Exclude)
 	g.Label(fmt.Sprintf("layer:%d", g.layer))
-	g.rootDefs = g.names(0, 4)
+	g.rootDefs = g.dropPunct(g.names(0, 4))
 	naux := g.Int(0, 3)
 	seenAux := map[string]bool{}
 	for i := 0; i < naux; i++ {
